@@ -28,7 +28,11 @@ import (
 	"verif/internal/stats"
 )
 
-func TestMain(m *testing.M) { fix.Quiet(); stats.Main(m) }
+func TestMain(m *testing.M) {
+	fix.Quiet()
+	_ = makeBusCert() // before anything reads the system roots (see server_test.go)
+	stats.Main(m)
+}
 
 const authToken = "s3cr3t-Token"
 
